@@ -571,9 +571,12 @@ Proof.
           rewrite Hr', Hi, <- Ru. eexists. split; [reflexivity|]. unfold R, with_cache; simpl; auto.
       - inv E. eexists. split; [reflexivity|]. unfold R; simpl; auto. }
     destruct loadF as [[] s2| |] eqn:EL; try discriminate.
+    (* /repo 82c39a0: the bytes requested lie beyond what the block read obtained -> FREAD_ERROR.  The test looks at the
+       cache only, which both runs share: with and without faults the same call fails *)
+    destruct (off + Z.of_nat n >? num_in_rd (c_ s2) mod 2 ^ 64) eqn:Hshort; [discriminate|].
     inv H.
     destruct (P2 sf' eq_refl Hfin) as (s2' & EI2 & (Rc2 & Ru2 & Rro2)). rewrite EI2.
-    eexists. split; [rewrite Rc2; reflexivity|]. unfold R; auto.
+    rewrite <- Rc2, Hshort. eexists. split; [reflexivity|]. unfold R; auto.
 Qed.
 
 (* ADFI_flush_buffers *)
